@@ -106,8 +106,9 @@ Check C30_transparent_request : forall q S w od opname vars cf n resp evs,
     exists evs0, x_request q S w od opname vars (with_k cf 0) n = Ok (resp, evs0, false).
 Print Assumptions C30_transparent_request.
 
-(* the known class is narrow: a field collected under its own (registered)
-   runtime object type never fails the lookup *)
+(* the known classes are narrow: a field that the runtime object type defines,
+   collected under that type's own name, never fails the lookup (a failure needs
+   a foreign static type name or a field name unknown to the registry) *)
 Theorem C30_known_class_needs_foreign_static_type : forall S rt nm t,
     obj_field_ty S rt nm = Some t -> lookup_ret S rt nm = Some t.
 Proof. exact lookup_concrete. Qed.
@@ -133,6 +134,25 @@ Check C30_transparent_refuted :
     r1 = Some {| rs_data := VNull; rs_errors := [[]]; rs_trace := [] |} /\
     r0 = Some {| rs_data := VObj [(6, VNull)]; rs_errors := []; rs_trace := [] |}.
 Print Assumptions C30_transparent_refuted.
+
+Theorem C30_transparent_refuted_fast :
+  exists q S w d cf n r1 e1 r0 e0,
+    c_fast cf = true /\
+    x_request q S w (Some d) None [] cf n = Ok (r1, e1, true) /\
+    x_request q S w (Some d) None [] (with_k cf 0) n = Ok (r0, e0, false) /\
+    oresp_same r1 r0 = false /\
+    r1 = Some {| rs_data := VNull; rs_errors := [[]]; rs_trace := [] |} /\
+    r0 = Some {| rs_data := VObj [(9, VNull); (6, VInt 0)]; rs_errors := []; rs_trace := [(0, 6)] |}.
+Proof. exact transparent_refuted_fast. Qed.
+Check C30_transparent_refuted_fast :
+  exists q S w d cf n r1 e1 r0 e0,
+    c_fast cf = true /\
+    x_request q S w (Some d) None [] cf n = Ok (r1, e1, true) /\
+    x_request q S w (Some d) None [] (with_k cf 0) n = Ok (r0, e0, false) /\
+    oresp_same r1 r0 = false /\
+    r1 = Some {| rs_data := VNull; rs_errors := [[]]; rs_trace := [] |} /\
+    r0 = Some {| rs_data := VObj [(9, VNull); (6, VInt 0)]; rs_errors := []; rs_trace := [(0, 6)] |}.
+Print Assumptions C30_transparent_refuted_fast.
 
 (* non-vacuity: a query with a list under two extensions: executed, no failing
    lookup, 36 events accepted by the lifecycle checker *)
